@@ -6,6 +6,7 @@ from pandas.api.types import is_list_like
 
 import staircase as sc
 from staircase.constants import inf
+from staircase.core.ops.common import _assert_closeds_equal
 from staircase.core.ops.masking import _get_slice_index
 from staircase.core.stats import docstrings
 from staircase.docstrings import examples
@@ -260,6 +261,7 @@ def corr(self, other, where=(-inf, inf), lag=0, clip="pre"):
         if clip == "pre" and where[1] != inf:
             where[1] = where[1] - lag
         other = other.shift(-lag)
+    _assert_closeds_equal(self, other)
     mask = self.isna() | other.isna()
     self = self.mask(mask)
     other = other.mask(mask)
